@@ -2,7 +2,11 @@
 """Regenerate /verif/MANIFEST.json from props.json (claimed checks) and properties.jsonl."""
 import json, os, subprocess
 ROOT = os.path.dirname(os.path.dirname(os.path.abspath(__file__)))
-props = json.load(open(os.path.join(ROOT, "props.json")))
+props = {}
+for fn in sorted(os.listdir(os.path.join(ROOT, "props"))):
+    if fn.endswith(".json"):
+        c = json.load(open(os.path.join(ROOT, "props", fn)))
+        props[c["id"]] = c
 all_ids = [json.loads(l)["id"] for l in open(os.path.join(ROOT, "properties.jsonl"))]
 pending = json.load(open(os.path.join(ROOT, "tools", "pending.json"))) if os.path.exists(os.path.join(ROOT, "tools", "pending.json")) else {}
 hook_commits = []
